@@ -258,6 +258,7 @@ class Obl:
     def __init__(self, name, kind, hyps, goal, fn="", line=0, note=""):
         self.name, self.kind, self.hyps, self.goal, self.fn, self.line, self.note = name, kind, list(hyps), goal, fn, line, note
         self.sat_expected = False   # True for vacuity/cover queries: (hyps) must be satisfiable
+        self.extra = []             # earlier conjuncts of the same invariant / postcondition list: an optional second formulation
 
 
 class ReturnRec:
@@ -313,11 +314,21 @@ class Exec:
             raise Undecided(f"expected array, got {type(ref).__name__}")
         return st.heap[ref.sid]
 
-    def add_obl(self, name, kind, st, goal, line=0, note=""):
+    def add_obl(self, name, kind, st, goal, line=0, note="", extra=()):
         if self.spec_mode:
             return
         goal = lit(goal)
-        self.obls.append(Obl(f"{self.qual}:{name}", kind, self.ax + st.pc, goal, self.qual, line, note))
+        o = Obl(f"{self.qual}:{name}", kind, self.ax + st.pc, goal, self.qual, line, note)
+        o.extra = list(extra)
+        self.obls.append(o)
+
+    def add_chain(self, names, kind, st, texts, line):
+        """the conjuncts of an invariant at one program point: conjunct j may use conjuncts 0..j-1 (A and B  <=>  A and (A => B))"""
+        proved = []
+        for nm, text in zip(names, texts):
+            g = lit(self.spec(text, st))
+            self.add_obl(nm, kind, st, g, line, text, extra=proved)
+            proved = proved + [g]
 
     def safe(self, st, what, cond, node):
         line = getattr(node, "lineno", 0)
@@ -1791,8 +1802,7 @@ class Exec:
             e.flag = None
             e.env[kname] = k + 1
             e.env["_k"] = k + 1
-            for j, inv in enumerate(invs):
-                self.add_obl(f"inv-pres[L{lid}#{j}@{n.lineno}]", "inv-pres", e, self.spec(inv, e), n.lineno, inv)
+            self.add_chain([f"inv-pres[L{lid}#{j}@{n.lineno}]" for j in range(len(invs))], "inv-pres", e, invs, n.lineno)
         # --- normal exit
         out = st.fork()
         self.havoc(out, mod_names, stores, promote, aug_only)
@@ -1837,8 +1847,7 @@ class Exec:
                 exits.append(e)
                 continue
             e.flag = None
-            for j, inv in enumerate(invs):
-                self.add_obl(f"inv-pres[L{lid}#{j}@{n.lineno}]", "inv-pres", e, self.spec(inv, e), n.lineno, inv)
+            self.add_chain([f"inv-pres[L{lid}#{j}@{n.lineno}]" for j in range(len(invs))], "inv-pres", e, invs, n.lineno)
             if meas:
                 m1 = self.spec(meas, e)
                 self.add_obl(f"dec[L{lid}@{n.lineno}]", "dec", e, z3.And(m0 >= 0, m1 < m0), n.lineno, meas)
